@@ -400,7 +400,8 @@ class PoolRun:
                 raise Boom("call-%d-%d" % (r, j))
             return me.body(r, j, tpl)
 
-        func.__name__ = func.__qualname__ = "w"     # shared on purpose: generated group names must count up
+        func.__name__ = "w"                         # shared on purpose: generated group names must count up
+        func.__qualname__ = "Harness.<locals>.w"    # the documented pattern uses the plain name
         inspect.markcoroutinefunction(func)
         return func
 
@@ -411,6 +412,10 @@ class PoolRun:
             me.ev("call", r=r, j=-1, got=repr((a, kw)), raised=False)
 
         plain.__name__ = "plain%d" % r
+
+        async def inner(*a, **kw):      # a sync wrapper around a coroutine function is still not a coroutine function
+            return None
+        plain.__wrapped__ = inner
         return plain
 
     def known_groups_of(self, tid):
